@@ -37,6 +37,11 @@ Definition lattice3 {A : Type} (n0 n1 n2 : nat) (f : nat -> nat -> nat -> A) : l
 Definition all_pairs (starts ends : list V3) : list Ray :=
   flat_map (fun s => map (ray_two s) ends) starts.
 
+(* batch_of_rays: ray i from entry i to exit i; a single entry (or a single exit) serves every ray *)
+Definition pick (l : list V3) (i : nat) : V3 := nth (if Nat.eqb (length l) 1 then 0%nat else i) l vzero.
+Definition batch_rays (entries exits : list V3) : list Ray :=
+  map (fun i => ray_two (pick entries i) (pick exits i)) (seq 0 (Nat.max (length entries) (length exits))).
+
 (* ---------------------------------------------------------------- rotations (angles in radians) *)
 Definition rotx (a : R) (v : V3) : V3 := (vx v, cos a * vy v - sin a * vz v, sin a * vy v + cos a * vz v).
 Definition roty (b : R) (v : V3) : V3 := (cos b * vx v + sin b * vz v, vy v, - sin b * vx v + cos b * vz v).
@@ -79,6 +84,16 @@ Definition polar (r a : R) : V3 := (r * cos a, r * sin a, 0).
 Definition circ_local (rad : R) (n0 n1 i j : nat) : V3 := polar (circ_radius rad n1 j) (circ_angle n0 i).
 Definition circ_points (rad : R) (n0 n1 : nat) (centre tilt : V3) : list V3 :=
   lattice2 n0 n1 (fun i j => placed tilt centre (circ_local rad n0 n1 i j)).
+(* circular_uniform_sample: ring i = 0..n0-1 of radius i/n0 rad carries floor(n1 i / n0) points at angles j / (n1 i / n0) 2 pi *)
+Definition cu_count (n0 n1 i : nat) : nat := (n1 * i / n0)%nat.
+Definition cu_radius (rad : R) (n0 i : nat) : R := INR i / INR n0 * rad.
+Definition cu_angle (n0 n1 i j : nat) : R := INR j / (INR n1 * INR i / INR n0) * 2 * PI.
+Definition cu_points (rad : R) (n0 n1 : nat) (centre tilt : V3) : list V3 :=
+  flat_map (fun i => map (fun j => placed tilt centre (polar (cu_radius rad n0 i) (cu_angle n0 n1 i j))) (seq 0 (cu_count n0 n1 i))) (seq 0 n0).
+(* circular_uniform_random_sample: radii rad sqrt(u) for draws u in [0,1], every radius with every drawn angle *)
+Definition cur_points (rad : R) (us angs : list R) (centre tilt : V3) : list V3 :=
+  flat_map (fun u => map (fun a => placed tilt centre (polar (rad * sqrt u) a)) angs) us.
+
 (* sphere: psi = k0 pi i / n0, teta = k1 pi j / n1 ; no tilt *)
 Definition sphere_pt (rad : R) (c : V3) (psi teta : R) : V3 :=
   (vx c + rad * sin psi * cos teta, vy c + rad * sin psi * sin teta, vz c + rad * cos psi).
@@ -104,6 +119,7 @@ Definition in_box (centre tilt : V3) (sx sy sz : R) (p : V3) : Prop :=
 (* ---------------------------------------------------------------- executable parts (B2) *)
 Definition idx2 (n0 n1 : nat) : list (nat * nat) := lattice2 n0 n1 (fun i j => (i, j)).
 Definition idx3 (n0 n1 n2 : nat) : list (nat * nat * nat) := lattice3 n0 n1 n2 (fun i j k => (i, j, k)).
+Definition cu_counts (n0 n1 : nat) : list nat := map (cu_count n0 n1) (seq 0 n0).
 Definition lum_origin_index (n0 n1 per : nat) : list nat := map (fun k => k mod (n0 * n1))%nat (seq 0 (per * (n0 * n1))).
 Open Scope Q_scope.
 Definition qn (n : nat) : Q := inject_Z (Z.of_nat n).
